@@ -4,6 +4,7 @@
 //  (b) probe-backed, large scope: every flat index asked of the storage is < its length and no
 //      two distinct in-range coordinates reach the same flat index.
 #include <cstdint>
+#include <limits>
 #include <unordered_map>
 #include <variant>
 #include <vector>
@@ -74,10 +75,16 @@ struct Case {
     // ---- (a)
     static void small_scope(std::size_t B, vh::Rng & rng)
     {
-        const std::string nm = name();
         sc::ext_t<N> e;
         for (std::size_t k = 0; k < N; ++k) e[k] = 1;
         do {
+            small_one(e, rng);
+        } while (sc::next_ext<N>(e, B));
+    }
+    static void small_one(const sc::ext_t<N> & e, vh::Rng & rng)
+    {
+        const std::string nm = name();
+        {
             vh::set_case("%s extents=%s small-scope", nm.c_str(), sc::show<N>(e).c_str());
             const uint64_t ncell = sc::cells<N>(e);
             field_t f(covfie::make_parameter_pack(typename backend_t::configuration_t(e), covfie::utility::nd_size<1>{storage_len(e)}));
@@ -129,7 +136,8 @@ struct Case {
             }
             if constexpr (L != L_STRIDED) {
                 // the same on a field whose storage the LIBRARY sized: converted from a row-major field
-                if (ok) {
+                // (the row-major source accumulates its flat index in the coordinate type: it must be able to count the cells)
+                if (ok && (sizeof(I) >= 8 || ncell <= (uint64_t)std::numeric_limits<I>::max())) {
                     vh::set_case("%s extents=%s small-scope (storage allocated by the conversion)", nm.c_str(), sc::show<N>(e).c_str());
                     using src_t = covfie::field<cb::strided<idx_d, cb::array<out_d>>>;
                     src_t src(covfie::make_parameter_pack(typename src_t::backend_t::configuration_t(e), covfie::utility::nd_size<1>{ncell}));
@@ -160,7 +168,7 @@ struct Case {
                 vh::nontrivial(vh::fnv(&e, sizeof e, vh::fnv(nm)));
                 if (ncell > 6) vh::sample(nm, "extents=" + sc::show<N>(e) + " cells=" + std::to_string(ncell) + " storage=" + std::to_string(storage_len(e)) + (ok ? " ok" : " VIOLATED"), 1);
             }
-        } while (sc::next_ext<N>(e, B));
+        }
     }
 
     // ---- (b)
@@ -180,6 +188,13 @@ struct Case {
                 e[k] = 1 + rng.below(1ull << b);
             }
             if (L == L_HILBERT && (fi & 1)) e[1] = e[0];
+            probe_one(e, rng, ncoords, fi == 3);
+        }
+    }
+    static void probe_one(const sc::ext_t<N> & e, vh::Rng & rng, unsigned ncoords, bool sample)
+    {
+        const std::string nm = name() + ":probe";
+        {
             vh::set_case("%s extents=%s", nm.c_str(), sc::show<N>(e).c_str());
             pfield_t f(covfie::make_parameter_pack(typename pbackend_t::configuration_t(e), covfie::utility::nd_size<1>{storage_len(e)}));
             typename pfield_t::view_t view(f);
@@ -224,7 +239,7 @@ struct Case {
                 }
             }
             if (!sc::trivial_ext<N>(e)) vh::nontrivial(vh::fnv(&e, sizeof e, vh::fnv(nm)));
-            if (fi == 3) vh::sample(nm, "extents=" + sc::show<N>(e) + " storage=" + std::to_string(storage_len(e)) + " lookups=" + std::to_string(ncoords) + " distinct flat indices=" + std::to_string(owner.size()), 1);
+            if (sample) vh::sample(nm, "extents=" + sc::show<N>(e) + " storage=" + std::to_string(storage_len(e)) + " lookups=" + std::to_string(ncoords) + " distinct flat indices=" + std::to_string(owner.size()), 1);
         }
     }
 
@@ -239,6 +254,33 @@ struct Case {
         large_scope(rng, th ? 400 : 40, th ? 4000 : 1000);
     }
 };
+
+// narrow coordinate types used over their FULL range: an axis of extent 2^bits (every coordinate 0..max is valid and the
+// extent itself is not representable in the coordinate type), and the largest extents the type can address
+template <int L, typename I, std::size_t N>
+static void full_range(vh::Rng & rng)
+{
+    using C = Case<L, I, N, float, 1>;
+    if (!vh::selected(C::name())) return;
+    const uint64_t top = (uint64_t)std::numeric_limits<I>::max() + 1;  // 256, 128, 65536
+    std::vector<sc::ext_t<N>> list;
+    for (std::size_t ax = 0; ax < N; ++ax)
+        for (uint64_t big : {top, top - 1, top / 2 + 1}) {
+            for (uint64_t other : {(uint64_t)1, (uint64_t)3, (uint64_t)4, big}) {
+                sc::ext_t<N> e;
+                for (std::size_t k = 0; k < N; ++k) e[k] = k == ax ? big : other;
+                list.push_back(e);
+            }
+        }
+    for (const auto & e : list) {
+        // the row-major layer accumulates the flat index in the coordinate type: fields with more cells than it can
+        // count are outside its domain (the space-filling curves produce a size_t index and have no such limit)
+        if (L == L_STRIDED && sc::cells<N>(e) > (uint64_t)std::numeric_limits<I>::max()) continue;
+        if (L == L_HILBERT && N != 2) continue;
+        if (C::storage_len(e) <= (1ull << 18) && sc::cells<N>(e) <= (1ull << 16)) C::small_one(e, rng);
+        C::probe_one(e, rng, 1500, false);
+    }
+}
 
 template <int L, typename I>
 static void per_index_type(vh::Rng & rng)
@@ -280,6 +322,22 @@ int main(int argc, char ** argv)
 {
     vh::init(argc, argv);
     vh::Rng rng(vh::st().seed * 2750159 + 1);
+#if defined(SH_NARROW)
+#define NARROW_ALL(L)                              \
+    full_range<L, unsigned char, 1>(rng);          \
+    full_range<L, unsigned char, 2>(rng);          \
+    full_range<L, unsigned char, 3>(rng);          \
+    full_range<L, signed char, 2>(rng);            \
+    full_range<L, unsigned short, 1>(rng);         \
+    full_range<L, unsigned short, 2>(rng);         \
+    full_range<L, short, 3>(rng);
+    NARROW_ALL(L_STRIDED)
+    NARROW_ALL(L_MORTON_T)
+    NARROW_ALL(L_MORTON_F)
+    full_range<L_HILBERT, unsigned char, 2>(rng);
+    full_range<L_HILBERT, unsigned short, 2>(rng);
+    full_range<L_HILBERT, signed char, 2>(rng);
+#else
 #if defined(SH_STRIDED)
     per_index_type<L_STRIDED, SH_I>(rng);
 #endif
@@ -291,6 +349,7 @@ int main(int argc, char ** argv)
     per_index_type<L_HILBERT, std::size_t>(rng);
     per_index_type<L_HILBERT, unsigned>(rng);
     per_index_type<L_HILBERT, int>(rng);
+#endif
 #endif
     return vh::finish();
 }
